@@ -886,9 +886,10 @@ class RejectGen(Gen):
     every possible point: first / middle / last child, direct child or grandchild, detached or
     attached siblings, every kind of receiver"""
 
-    def mk(self, cls, kids=None, det=False, v=None, id=None, eu=False, asdup=False, allow_repeat=False):
+    def mk(self, cls, kids=None, det=False, v=None, id=None, eu=False, asdup=False, allow_repeat=False, tag=None):
         r = self.rng
-        op = Op(self.uid(), "new", None, {"cls": cls, "v": r.randint(0, 3) if v is None else v, "tag": r.choice(["", "t"]),
+        op = Op(self.uid(), "new", None, {"cls": cls, "v": r.randint(0, 3) if v is None else v,
+                                         "tag": r.choice(["", "t"]) if tag is None else tag,
                                          "id": id, "org": r.randint(0, 2), "eu": eu, "asdup": asdup, "det": det,
                                          "kids": kids or {}})
         out = self.run(op, allow_repeat)
@@ -1360,6 +1361,53 @@ class RejectGen(Gen):
             if old is not None:
                 self.run(Op(self.uid(), "rwith", self.name(old), {"new": self.name(top)}))
 
+    def stale_twin_swap(self):
+        """a directed SUCCESSFUL scenario: a detached top node whose content id is STALE (its attached child changed
+        while it was out of the registry) replaces an attached node whose content equals the OLD content of that top
+        node: the ancestors of the replaced node must see the change although the two content ids compare equal"""
+        r = self.rng
+        v = r.randint(0, 3)
+        tag = r.choice(["", "t"])
+        depth = r.randint(1, 3)
+
+        def column(top_cls_seq):
+            o = self.mk("LLeaf", v=v, tag=tag)
+            if o is None:
+                return None, None, []
+            leaf, col = o, [o]
+            for cls in top_cls_seq:
+                o = self.mk(cls, {"arg": self.name(o)} if cls in ("LUn", "LFUn") else {"items": [self.name(o)]}, v=v, tag=tag)
+                if o is None:
+                    return None, None, []
+                col.append(o)
+            return leaf, o, col
+
+        seq = [r.choice(["LUn", "LTup", "LLst"]) for _ in range(depth + 1)]
+        leaf_a, top_a, col_a = column(seq)          # the one that is taken apart
+        leaf_b, top_b, col_b = column(seq)          # its twin, attached below one or two more levels
+        if top_a is None or top_b is None:
+            return
+        holder = top_b
+        for _ in range(r.randint(1, 2)):
+            cls = r.choice(["LUn", "LTup", "LBin"])
+            if cls == "LBin":
+                y = self.leaf()
+                if y is None:
+                    return
+                kids = {"left": self.name(holder), "right": self.name(y)} if r.random() < 0.5 else {"left": self.name(y), "right": self.name(holder)}
+            elif cls == "LUn":
+                kids = {"arg": self.name(holder)}
+            else:
+                kids = {"items": [self.name(holder)]}
+            holder = self.mk(cls, kids)
+            if holder is None:
+                return
+        k = r.randint(1, depth)                      # peel k levels from the top of column a
+        for lvl in range(k):
+            self.run(Op(self.uid(), "detach", self.name(col_a[-1 - lvl]), {"only_self": True}), label="stale-twin")
+        self.run(Op(self.uid(), "replace", self.name(leaf_a), {"changes": {"v": v + 5}, "bad": []}), label="stale-twin")
+        self.run(Op(self.uid(), "rwith", self.name(top_b), {"new": self.name(top_a)}), label="stale-twin")
+
     def reject_step(self):
         for _ in range(6):
             g = self.gen_reject()
@@ -1474,6 +1522,8 @@ def run_history(rng: random.Random, length: int, transformers: bool, rejects: in
         g.step()
     if not g.dead and rng.random() < 0.6:
         g.peel_and_reattach()
+    if not g.dead and rng.random() < 0.5:
+        g.stale_twin_swap()
     for _ in range(rejects):
         if g.dead:
             break
